@@ -324,5 +324,68 @@ class FF:
         env2["__Dij__"] = ("scalar", "(D i j)")
         return self.vex(n2, env2, None)
 
+    # ---- the assembly of q / qhat: which collision integrals each block receives, the mass-ratio transposes, the block layout ----
+    ALLQ = ["Q11", "Q12", "Q13", "Q14", "Q15", "Q16", "Q17", "Q22", "Q23", "Q24", "Q25", "Q26", "Q33", "Q34", "Q35", "Q44"]
+
+    def assembly(self, fname, prefix, order):
+        fn, st = self.body(fname)
+        self.expect(st, 0, "nb_species = len(mixture.species)")
+        self.expect(st, 1, "number_densities = mixture.calculate_composition()")
+        if ast.unparse(st[2]) not in ("masses = np.array([species.molar_mass / u.N_a for species in mixture.species])", self.COMMON[2]):
+            self.fail(st[2], "masses")
+        qn, terms, k = {}, {}, 3
+        MR = "masses[np.newaxis, :] / masses[:, np.newaxis]"
+        mr = "(ndiv N (masses j) (masses i))"
+        while k < len(st) - 2:
+            a = st[k]
+            if not (isinstance(a, ast.Assign) and len(a.targets) == 1 and isinstance(a.targets[0], ast.Name)):
+                self.fail(a, f"{fname}: unexpected statement")
+            tgt, v = a.targets[0].id, a.value
+            if tgt in qn or tgt in terms:
+                self.fail(a, f"{fname}: {tgt} assigned twice")
+            if isinstance(v, ast.Call) and ast.unparse(v.func) == "Qij_mix":
+                # Qls = Qij_mix(mixture, l, s): the name must say which integral it is
+                if not (len(v.args) == 3 and not v.keywords and ast.unparse(v.args[0]) == "mixture"
+                        and all(isinstance(x, ast.Constant) and isinstance(x.value, int) for x in v.args[1:])
+                        and tgt == f"Q{v.args[1].value}{v.args[2].value}" and tgt in self.ALLQ):
+                    self.fail(a, f"{fname}: collision-integral matrix {ast.unparse(a)}")
+                qn[tgt] = f"I{tgt[1:]}"
+            elif isinstance(v, ast.Call) and isinstance(v.func, ast.Name) and v.func.id == f"_{tgt}_jit" and tgt.startswith(prefix):
+                args = [ast.unparse(x) for x in v.args]
+                if v.keywords or args[-3:] != ["masses", "nb_species", "number_densities"] or any(x not in qn for x in args[:-3]):
+                    self.fail(a, f"{fname}: arguments of {tgt}")
+                terms[tgt] = f"({tgt} {' '.join(qn[x] for x in args[:-3])} masses nb nd i j)"   # defined in the same section: N is implicit there
+            elif tgt == "mass_ratio" and ast.unparse(v) == MR:
+                terms[tgt] = mr
+            elif isinstance(v, ast.BinOp) and isinstance(v.op, ast.Mult) and isinstance(v.right, ast.Name) and v.right.id in terms \
+                    and tgt.startswith(prefix):
+                left = v.left
+                power = 1
+                if isinstance(left, ast.BinOp) and isinstance(left.op, ast.Pow) and isinstance(left.right, ast.Constant) \
+                        and isinstance(left.right.value, int) and 1 <= left.right.value <= 4:
+                    power, left = left.right.value, left.left
+                if not ((isinstance(left, ast.Name) and left.id == "mass_ratio" and "mass_ratio" in terms) or ast.unparse(left) == MR):
+                    self.fail(a, f"{fname}: transpose {ast.unparse(a)}")
+                fac = mr if power == 1 else f"(npow N {mr} {power})"
+                terms[tgt] = f"(nmul N {fac} {terms[v.right.id]})"
+            else:
+                self.fail(a, f"{fname}: unexpected statement {ast.unparse(a)[:80]}")
+            k += 1
+        blk = self.assign_to(st[-2], "qq")
+        self.expect(st, len(st) - 1, "return qq")
+        if not (isinstance(blk, ast.Call) and ast.unparse(blk.func) == "np.block" and len(blk.args) == 1 and isinstance(blk.args[0], ast.List)
+                and len(blk.args[0].elts) == order and all(isinstance(r, ast.List) and len(r.elts) == order for r in blk.args[0].elts)):
+            self.fail(blk, f"{fname}: np.block layout")
+        rows = []
+        for r, row in enumerate(blk.args[0].elts):
+            for c, e in enumerate(row.elts):
+                if not (isinstance(e, ast.Name) and e.id in terms and e.id != "mass_ratio"):
+                    self.fail(e, f"{fname}: block entry")
+                rows.append(f"  | {r}%nat, {c}%nat => {terms[e.id]}")
+        names = [x for x in self.ALLQ if x in qn]
+        params = " ".join(f"(I{x[1:]} : nat -> nat -> A)" for x in names)
+        return [f"Definition gen_{fname}block {params} (masses : nat -> A) (nb : nat) (nd : nat -> A) (a b i j : nat) : A :=\n"
+                f"  match a, b with\n" + "\n".join(rows) + "\n  | _, _ => (nofZ N 0%Z)\n  end.\n"]
+
     def all(self):
-        return self.viscosity() + self.dti() + self.dij() + self.sigma() + self.kappa()
+        return self.viscosity() + self.dti() + self.dij() + self.sigma() + self.kappa() + self.assembly("q", "q", 4) + self.assembly("qhat", "qhat", 2)
